@@ -70,6 +70,42 @@ fn strat(max_ops: usize, chain: bool, restart: bool) -> impl Strategy<Value = Ca
 	(spec_strategy(), proptest::collection::vec(xop_strategy(weights(chain, restart)), 8..max_ops), proptest::collection::vec(0u8..6, 4)).prop_map(|(spec, ops, final_choices)| Case { spec, ops, final_choices })
 }
 
+/// The sender (channel funder with little balance) raises its fee twice, queues a payment at its send limit behind the
+/// second, still unacknowledged update, switches to asynchronous persistence and lets the peer's answers arrive while
+/// a monitor update is in flight: the queued HTLC is released outside the revoke_and_ack handler and may no longer be
+/// affordable. Delivery counts and amounts are generated around that shape.
+fn held_release_template() -> impl Strategy<Value = Case> {
+	(
+		world_spec(vec![Topology::Pair]),
+		(1u32..400, 1u32..400, 900u16..992),
+		proptest::collection::vec(prop_oneof![4 => Just(Amt::LimitMinus(0)), 1 => Just(Amt::LimitMinus(1)), 1 => (0u16..u16::MAX).prop_map(Amt::Frac)], 1..3),
+		proptest::collection::vec(1u8..=2, 5),
+		proptest::bool::weighted(0.85),
+		proptest::collection::vec(xop_strategy(weights(false, false)), 0..10),
+		proptest::collection::vec(0u8..6, 4),
+	)
+		.prop_map(|(mut spec, (d1, d2, push), amts, ks, async_on, tail, final_choices)| {
+			spec.push_permille = vec![push];
+			spec.value_sat = vec![spec.value_sat[0].clamp(60_000, 300_000)];
+			spec.deferred = false;
+			spec.node_tweaks = vec![];
+			spec.htlc_min_msat = spec.htlc_min_msat.min(1000);
+			let r0 = spec.feerate;
+			let to_peer = |k: u8| XOp::Base(Op::Deliver { link: 0, k });
+			let to_s = |k: u8| XOp::Base(Op::Deliver { link: 65_535, k });
+			let mut ops = vec![XOp::Base(Op::SetFee { node: 0, rate: r0 + d1 }), to_peer(2), to_s(ks[0].min(1)), XOp::Base(Op::SetFee { node: 0, rate: r0 + d1 + d2 }), to_peer(ks[1])];
+			for a in amts {
+				ops.push(XOp::SendRoute { route: 0, amt: a, tweak: 0 });
+			}
+			if async_on {
+				ops.push(XOp::AsyncS { chan: 0, on: true });
+			}
+			ops.extend([to_s(ks[2]), to_peer(ks[3]), to_s(ks[4]), XOp::Base(Op::CompleteAll { node: 0 }), XOp::Base(Op::Pump), XOp::Base(Op::CompleteAll { node: 0 }), XOp::Base(Op::Pump)]);
+			ops.extend(tail);
+			Case { spec, ops, final_choices }
+		})
+}
+
 fn oracle(c: &Case, ctx: &mut Ctx) -> CaseResult {
 	let mut sim = c.spec.build(false);
 	if let Err(e) = sim.c03_seed_graphs() {
@@ -348,12 +384,12 @@ fn main() {
 	c.part_with(
 		PartSpec {
 			name: "lifecycle",
-			rule: "random world (pair, line of 3/4, diamond, parallel channels; all channel types and parameters of netsim's world_spec; forwarding cltv deltas 72..83) + 8..N generated operations: S pays by explicit single path, explicit multi-path route (2-4 parts), the real router with Retry::Attempts(0..3) (with and without MPP), keysend, underpaying routes a forwarder must fail; duplicate-id sends, abandon_payment; recipients claim / fail back / ignore until timeout; single-message delivery, disconnect / reconnect at every point of the removal dance (ResolveCut, Interrupt), asynchronous persistence at S with generated completion order, manager snapshots and restarts of S from any earlier snapshot with durable or latest-written monitors, force closes by any node, block mining with generated inclusion, timer ticks; then a bounded end game (settle, resolve claimable payments by generated choice, mine until nothing of S is in flight). Oracles (a)-(g) of the design over S's events, list_recent_payments, API results, wire-level HTLC tracking and the BOLT-2 model. Non-trivial: a terminal event was reached and the history has a fulfil/fail redelivered after reconnection, a restart of S between send and terminal event, an MPP with mixed part outcomes, or an on-chain resolution of one of S's HTLCs",
+			rule: "random world (pair, line of 3/4, diamond, parallel channels; all channel types and parameters of netsim's world_spec; forwarding cltv deltas 72..83) + 8..N generated operations: S pays by explicit single path, explicit multi-path route (2-4 parts), the real router with Retry::Attempts(0..3) (with and without MPP), keysend, underpaying routes a forwarder must fail; duplicate-id sends, abandon_payment; recipients claim / fail back / ignore until timeout; single-message delivery, disconnect / reconnect at every point of the removal dance (ResolveCut, Interrupt), asynchronous persistence at S with generated completion order, manager snapshots and restarts of S from any earlier snapshot with durable or latest-written monitors, force closes by any node, block mining with generated inclusion, timer ticks, fee changes by the channel funder; one case in ten follows a template (funder with little balance raises its fee twice, queues a payment at its send limit behind the unacknowledged second update, persists asynchronously, the peer's answers arrive while a monitor update is in flight); then a bounded end game (settle, resolve claimable payments by generated choice, mine until nothing of S is in flight). Oracles (a)-(g) of the design over S's events, list_recent_payments, API results, wire-level HTLC tracking and the BOLT-2 model. Non-trivial: a terminal event was reached and the history has a fulfil/fail redelivered after reconnection, a restart of S between send and terminal event, an MPP with mixed part outcomes, or an on-chain resolution of one of S's HTLCs",
 			quick_cases: 1400,
 			thorough_cases: 36_000,
 			max_shrink: 300,
 		},
-		move || strat(max_ops, true, true),
+		move || prop_oneof![9 => strat(max_ops, true, true).boxed(), 1 => held_release_template().boxed()],
 		oracle,
 	);
 	c.part_with(
